@@ -1,6 +1,7 @@
 package props
 
 import (
+	"bytes"
 	"fmt"
 	"os"
 	"path/filepath"
@@ -541,11 +542,12 @@ func (c18) Exec(c *sim.Case, env *Env) []sim.Violation {
 		eng := document.NewTemplateEngine()
 		var dA *document.Document
 		var bA1, bA2 []byte
+		thirdMiss := ""
 		sig, pn := Guard(func() {
 			if _, e := eng.LoadTemplateFromDocument("t", base.D); e != nil {
 				return
 			}
-			dA, _ = eng.RenderTemplateToDocument("t", data.ToLibIn(filepath.Join(dir, "tplimg")))
+			dA, _ = eng.RenderTemplateToDocument("t", data.ToLibReplacing(filepath.Join(dir, "tplimg")))
 			if dA == nil {
 				return
 			}
@@ -558,13 +560,46 @@ func (c18) Exec(c *sim.Case, env *Env) []sim.Violation {
 				}
 				other.Images[k] = nv
 			}
-			dB, _ := eng.RenderTemplateToDocument("t", other.ToLibIn(filepath.Join(dir, "tplimg")))
+			dB, _ := eng.RenderTemplateToDocument("t", other.ToLibReplacing(filepath.Join(dir, "tplimg")))
 			if dB != nil {
 				_, _ = dB.AddImageFromData(world.MakeImage("gif", 3, 3, 9191), "late.gif", document.ImageFormatGIF, 3, 3, nil)
 				_ = dB.AddFooter(document.HeaderFooterTypeEven, "later footer")
 			}
 			bA2, _ = dA.ToBytes()
+			// a third render gives the placeholder another picture of the SAME format (through the same file name when the picture
+			// comes from a file): the rendering must show the bytes supplied for it, not those an earlier render was given
+			if hasImagePH && len(data.Images) > 0 {
+				third := *data
+				third.Images = map[string][]int{}
+				for k, v := range data.Images {
+					nv := append([]int{}, v...)
+					if len(nv) >= 4 {
+						nv[3] += 2
+					}
+					third.Images[k] = nv
+				}
+				if dC, _ := eng.RenderTemplateToDocument("t", third.ToLibReplacing(filepath.Join(dir, "tplimg"))); dC != nil {
+					if bC, err := dC.ToBytes(); err == nil {
+						if pk, err := inspect.ReadZip(bC); err == nil {
+							for _, k := range sim.SortedKeys(third.Images) {
+								want, found := third.ImageBytes(k), false
+								for _, n := range pk.SortedNames() {
+									if strings.HasPrefix(n, "word/media/") && bytes.Equal(pk.Parts[n], want) {
+										found = true
+									}
+								}
+								if want != nil && !found {
+									thirdMiss = "the picture supplied for {{#image " + k + "}} in a later render of the same engine is in no media part of the result"
+								}
+							}
+						}
+					}
+				}
+			}
 		})
+		if thirdMiss != "" {
+			add("image-placeholder", "later-render-shows-other-bytes", thirdMiss)
+		}
 		if pn {
 			add("panic", sig, "a second render from the cached template panicked")
 		} else if dA != nil && bA2 != nil {
